@@ -44,6 +44,7 @@ M = [
  ("C08-elif-always-evaluated", "C08", "src/parser.rs", "let item = if d == Directive::ElIf && !pending_elif {", "let item = if d == Directive::ElIf && !pending_elif && false {", "falling into .elif evaluates it again (the repaired defect comes back)"),
  ("C08-chain-skip-ignores-nesting", "C08", "src/parser.rs", "                                } else if directive == Directive::Endif {\n                                    if scoup_count == 0 {\n                                        ret = iter.next();\n                                        break;\n                                    }\n                                    scoup_count -= 1;", "                                } else if directive == Directive::Endif {\n                                    if scoup_count >= 0 {\n                                        ret = iter.next();\n                                        break;\n                                    }\n                                    scoup_count -= 1;", "skipping the rest of a chain stops at the first nested .endif"),
  # ---- C09 macros
+ ("C09-calls-in-dseg-not-expanded", "C09", "src/builder/pass0.rs", "    for segment in parsed.segments {\n        context.add_segment(Segment {", "    for segment in parsed.segments {\n        if segment.t != crate::parser::SegmentType::Code {\n            context.add_segment(segment.clone());\n            continue;\n        }\n        context.add_segment(Segment {", "macro calls written under .dseg/.eseg are not expanded again"),
  ("C09-macro-name-case", "C09", "src/parser.rs", ".insert(name.to_lowercase(), items);", ".insert(name, items);", "macro names stored as written again"),
  ("C09-predecrement-display", "C09", "src/instruction/mod.rs", "IndexOps::PreDecrement(r16) => write!(f, \"-{}\", r16),", "IndexOps::PreDecrement(r16) => write!(f, \"{}\", r16),", "a -X/-Y/-Z macro argument loses its minus"),
  ("C09-display-no-parens", "C09", "src/expr.rs", "write!(f, \"({}{}{})\", self.left, self.operator, self.right)", "write!(f, \"{}{}{}\", self.left, self.operator, self.right)", "macro arguments lose their grouping again"),
@@ -81,6 +82,7 @@ M = [
  ("C17-include-cache-by-name", "C17", "src/parser.rs", "    let mut source = String::new();\n    file.read_to_string(&mut source)?;", "    let mut source = String::new();\n    file.read_to_string(&mut source)?;\n    let cache_key = current_path.file_name().map(|n| n.to_string_lossy().to_string()).unwrap_or_default();\n    let source = INCLUDE_CACHE.with(|c| c.borrow_mut().entry(cache_key).or_insert(source).clone());", "included files cached per thread by file name"),
  # ---- C18 CLI
  ("C18-write-failure-exit0", "C18", "src/app/main.rs", "                    Err(e) => {\n                        failed = true;\n                        println!(\n                            \"Failed to generate and write hex file {}, with error {}\",\n                            file_name, e\n                        )\n                    }\n                }\n            } else {\n                println!(\"Nothing to write of code", "                    Err(e) => {\n                        println!(\n                            \"Failed to generate and write hex file {}, with error {}\",\n                            file_name, e\n                        )\n                    }\n                }\n            } else {\n                println!(\"Nothing to write of code", "flash write failure no longer changes the exit status"),
+ ("C18-stem-through-str", "C18", "src/app/main.rs", "            .file_stem()\n            .unwrap_or_default()\n            .to_os_string();", "            .file_stem()\n            .unwrap_or_default()\n            .to_str()\n            .map(std::ffi::OsString::from)\n            .unwrap_or_default();", "output names derived through &str again (non-UTF-8 stems collapse)"),
  ("C18-eep-name", "C18", "src/app/main.rs", "out_file_name += \".eep.hex\";", "out_file_name += \".eep\";", "default EEPROM file gets the wrong name"),
 ]
 
@@ -113,10 +115,8 @@ REVERTS = [
  ("R-duplicate-equ", "C10", "7e031f3", ".equ defined twice / clashing with a label accepted"),
  ("R-includepath-in-included-file", "C11", "6182b21", ".includepath inside an included file forgotten at its end"),
  ("R-include-directory", "C11", "a9de6e3", "directory shadows a file; read errors do not name the file"),
- ("R-macro-call-in-dseg", "C09", "aeeba39", "macro calls in .dseg/.eseg not expanded"),
  ("R-device-two-operands", "C12", "e22c5cc", ".device A, B accepted"),
  ("R-org-before-switch", "C02", "9630515 63de58d", ".org directly followed by a segment switch is lost"),
- ("R-cli-non-utf8-name", "C18", "d77cbb4", "non-UTF-8 source name gives .hex"),
  ("R-cli-same-output", "C18", "74ce6b5", "-o X -e X loses the flash image silently"),
  ("R-includepath-panic", "C16", "7410e14", "relative .includepath in a macro body panics"),
 ]
